@@ -100,6 +100,59 @@ theorem assignGen_touched (c : Cfg) (dblk : Nat) : ∀ (srcs : List (Src α)) (d
     · intro e w1 ⟨he, hq⟩
       exact ⟨he.1, Touched.of_quiet _ hq⟩
 
+/-- one assignment from a source that is not modified touches its target only -/
+theorem WroteFrom.touched_nm {c : Cfg} {w w' : World α} {blk idx : Nat} {s : Src α} (hw : WroteFrom c w w' blk idx s)
+    (hnm : s.moving c = false) (hlive : SrcLive w s) : Touched w w' (fun b i => (b, i) = (blk, idx)) := by
+  refine ⟨hw.ctl, fun b i hn => hw.same_of_nonmoving hnm hlive b i hn, ?_⟩
+  intro b i hp _
+  injection hp with h1 h2
+  subst h1; subst h2
+  exact ⟨_, hw.dst⟩
+
+/-- forward assignment loop from sources that are not modified and lie outside the target range, shape level, BOTH
+    outcomes: only the targets change (and remain objects); in particular the sources' blocks are untouched even when
+    an assignment throws -/
+theorem assignGen_touched_nm (c : Cfg) (dblk : Nat) : ∀ (srcs : List (Src α)) (d : Nat) (w : World α),
+    NonMoving c srcs →
+    (∀ k, k < srcs.length → IsObj w dblk (d + k)) →
+    (∀ s ∈ srcs, SrcLive w s) →
+    (∀ s ∈ srcs, ∀ b i, s.loc = some (b, i) → ¬ (b = dblk ∧ d ≤ i ∧ i < d + srcs.length)) →
+    (assignGen c dblk d srcs w).sat
+      (fun _ w' => Touched w w' (fun b i => b = dblk ∧ d ≤ i ∧ i < d + srcs.length))
+      (fun e w' => e = .elem ∧ Touched w w' (fun b i => b = dblk ∧ d ≤ i ∧ i < d + srcs.length))
+  | [], d, w, _, _, _, _ => Touched.refl w _
+  | s :: rest, d, w, hnm, hobj, hlive, hout => by
+    show ((assignSrc c dblk d s >>= fun _ => assignGen c dblk (d + 1) rest) w).sat _ _
+    obtain ⟨u, hu⟩ := hobj 0 (by simp)
+    have hs0 : s.loc ≠ some (dblk, d) := by
+      intro h; exact hout s (by simp) dblk d h ⟨rfl, Nat.le_refl _, by simp⟩
+    refine sat_bind (assignSrc_sat c dblk d s w u (by simpa using hu) (hlive s (by simp)) hs0) (fun _ w1 hw => ?_) ?_
+    · have ht1 : Touched w w1 (fun b i => b = dblk ∧ d ≤ i ∧ i < d + (s :: rest).length) :=
+        (hw.touched_nm (hnm s (by simp)) (hlive s (by simp))).mono (fun b i h => by
+          injection h with h1 h2; exact ⟨h1, by omega, by simp; omega⟩)
+      have hsame := hw.same_of_nonmoving (hnm s (by simp)) (hlive s (by simp))
+      have hobj1 : ∀ k, k < rest.length → IsObj w1 dblk (d + 1 + k) := by
+        intro k hk
+        have := hobj (k + 1) (by simp; omega)
+        rw [show d + (k + 1) = d + 1 + k by omega] at this
+        exact ht1.isObj this
+      have hlive1 : ∀ s' ∈ rest, SrcLive w1 s' := by
+        intro s' hs' b i hl
+        have hne : (b, i) ≠ (dblk, d) := by
+          intro h; injection h with h1 h2
+          exact hout s' (by simp [hs']) b i hl ⟨h1, by omega, by simp; omega⟩
+        exact isObj_of_eq (hsame b i hne) (hlive s' (by simp [hs']) b i hl)
+      have hout1 : ∀ s' ∈ rest, ∀ b i, s'.loc = some (b, i) → ¬ (b = dblk ∧ d + 1 ≤ i ∧ i < d + 1 + rest.length) := by
+        intro s' hs' b i hl ⟨h1, h2, h3⟩
+        exact hout s' (by simp [hs']) b i hl ⟨h1, by omega, by simp; omega⟩
+      refine Res.sat_mono (assignGen_touched_nm c dblk rest (d + 1) w1 (fun s' hs' => hnm s' (by simp [hs'])) hobj1 hlive1 hout1) ?_ ?_
+      · intro _ w2 h2
+        exact ht1.trans (h2.mono (fun b i ⟨h1, h2, h3⟩ => ⟨h1, by omega, by simp; omega⟩))
+      · intro e w2 ⟨he, h2⟩
+        exact ⟨he, ht1.trans (h2.mono (fun b i ⟨h1, h2, h3⟩ => ⟨h1, by omega, by simp; omega⟩))⟩
+    · intro e w1 ⟨he, hq⟩
+      exact ⟨he.1, Touched.of_quiet _ hq⟩
+
 /-- forward assignment loop with sources that are not modified and lie outside the target range:
     on normal return the targets hold the sources' values and NOTHING else changed -/
 theorem assignGen_nonmoving_sat (c : Cfg) (dblk : Nat) : ∀ (srcs : List (Src α)) (d : Nat) (w : World α),
